@@ -4,8 +4,8 @@ Import ListNotations.
 From SAV.engine Require Import PoolSeq PoolSeqFrame PoolSeqLeakProofs PoolSeqOpOn PoolSeqAccProofs.
 Open Scope Z_scope.
 
-Lemma Mono_tc_false : forall s s', Mono s s' -> taint_close s' = false -> taint_close s = false.
-Proof. intros s s' [] H. destruct (taint_close s) eqn:E; auto. rewrite m_tc in H; auto. Qed.
+Lemma Mono_tc_false : forall s s', Mono s s' -> taint s' = false -> taint s = false.
+Proof. exact Mono_taint_false. Qed.
 
 Section Acc2.
 Variable cf : cfg.
@@ -16,7 +16,7 @@ Hypothesis MO : -1 <= maxov cf.
 Notation A := (A cf).
 Ltac a_leaf := eapply A_frame; [reflexivity|reflexivity|reflexivity|reflexivity|auto|].
 
-Lemma A_untainted : forall fl s, A fl s -> taint_close s = false -> AccK cf (flz fl) s /\ QOk cf fl s /\ OvB cf s.
+Lemma A_untainted : forall fl s, A fl s -> taint s = false -> AccK cf (flz fl) s /\ QOk cf fl s /\ OvB cf s.
 Proof. intros fl s [T|H] Hn; [congruence|exact H]. Qed.
 
 (* ---- do_get leaves every fairy_ref alone (a new record starts with None, which it had anyway) *)
@@ -50,7 +50,7 @@ Proof.
 Qed.
 
 (* _ConnectionRecord.checkout *)
-Lemma record_checkout_Q : forall s x s', record_checkout cf s = (x, s') -> A None s -> taint_close s' = false ->
+Lemma record_checkout_Q : forall s x s', record_checkout cf s = (x, s') -> A None s -> taint s' = false ->
   A None s' /\
   match x with
   | Ok f => exists r0, f = nfairies s /\ f_rec s' f = Some r0 /\ f_orig s' f = r0 /\ r_fairy s' r0 = Some f /\
@@ -61,7 +61,7 @@ Lemma record_checkout_Q : forall s x s', record_checkout cf s = (x, s') -> A Non
   end.
 Proof.
   unfold record_checkout; intros s x s' H HA T.
-  assert (T0 : taint_close s = false).
+  assert (T0 : taint s = false).
   { pose proof (record_checkout_mono cf s x s') as M. unfold record_checkout in M. specialize (M H).
     eapply Mono_tc_false; eauto. }
   destruct (A_untainted _ _ HA T0) as (_ & (Q1 & Q2 & Q3 & Q4 & Q5) & _).
@@ -72,7 +72,7 @@ Proof.
   destruct (get_connection cf r s1) as [[c|err] s2] eqn:E2; pose proof (get_connection_rl _ _ _ _ _ E2) as R2.
   - destruct (new_fairy c r s2) as [f sf'] eqn:Enf. inv H. pose proof R2 as [].
     unfold new_fairy in Enf. inv Enf.
-    assert (T1 : taint_close s2 = false) by exact T.
+    assert (T1 : taint s2 = false) by exact T.
     destruct (A_untainted _ _ (A_rl cf _ _ _ R2 A1) T1) as (HA2 & (P1 & P2 & P3 & P4 & P5) & HO2).
     destruct (P3 r eq_refl) as (R1' & R2' & R3').
     match goal with |- context [A None ?sf] => set (sf' := sf) end.
@@ -110,7 +110,7 @@ Proof.
     destruct x' as [e' ->].
     split; [|rewrite (checkin_failed_fr _ _ _ _ _ _ E3); destruct R2; rewrite rl_fr; auto].
     intros r'. pose proof (checkin_failed_oo cf O _ _ _ _ _ E3) as [].
-    assert (T2 : taint_close s2 = false).
+    assert (T2 : taint s2 = false).
     { eapply Mono_tc_false; [eapply checkin_failed_mono; eauto|auto]. }
     destruct (A_untainted _ _ A2 T2) as (_ & (P1 & P2 & P3 & P4 & P5) & _).
     destruct (P3 r eq_refl) as (R1' & R2' & R3').
@@ -126,64 +126,80 @@ Proof.
 Qed.
 
 
-Lemma do_return_conn_raise : forall r s e s', do_return_conn cf r s = (Raise e, s') -> taint_close s' = true.
+Lemma do_return_conn_raise : forall r s e s', do_return_conn cf r s = (Raise e, s') -> taint s' = true.
 Proof.
   unfold do_return_conn; rewrite KQ; intros r s e s' H. dm H; [|inv H].
   destruct (rec_close_if_open r s) as [[|e0] s1] eqn:Ec; inv H.
   unfold rec_close_if_open in Ec. destruct (r_dbc s r) eqn:Ed; [|inv Ec].
-  change (taint_close (dec_overflow s1)) with (taint_close s1).
+  change (taint (dec_overflow s1)) with (taint s1). apply tc_taint.
   eapply rec_close_raise; eauto. congruence.
 Qed.
 
 (* _finalize_fairy: accounting preserved; the fairy's link to its record and the record's fairy_ref
-   are cleared together *)
+   are cleared together (unless tainted) *)
+Lemma finalize_A1 : forall dbc r gcf twr fy s x s', finalize cf dbc r gcf twr fy s = (x, s') -> A None s -> A None s'.
+Proof.
+  intros dbc r gcf twr fy s x s' H.
+  pose proof (finalize_gen cf (fun a b => A None a -> A None b)) as G. cbv beta in G.
+  refine (G _ _ _ _ r fy _ _ dbc gcf twr s x s' H).
+  - auto.
+  - auto.
+  - intros a b R HA. eapply A_rl; eauto.
+  - intros a HA. apply (A_frame cf None a); auto. unfold taint; cbn. intros _. apply orb_true_r.
+  - intros r0 a y b _ Hc HA. eapply rec_checkin_A; eauto. intros; discriminate.
+  - intros f a _ HA. apply (A_frame cf None a); auto.
+Qed.
+
 Lemma finalize_A : forall dbc r gcf twr fy s x s', finalize cf dbc r gcf twr fy s = (x, s') -> A None s ->
   A None s' /\
   (forall f r0, fy = Some f -> r = Some r0 -> gcf = None -> r_fairy s r0 = Some f -> f_rec s' f = Some r0 ->
-                taint_close s' = false -> r_fairy s' r0 = Some f).
+                taint s' = false -> r_fairy s' r0 = Some f).
 Proof.
-  unfold finalize; intros dbc r gcf twr fy s x s' H HA.
-  match type of H with (if ?b then _ else _) = _ => destruct b eqn:Eb; [inv H; split; [auto|intros; auto]|] end.
+  intros dbc r gcf twr fy s x s' H HA. split; [eapply finalize_A1; eauto|].
+  intros f r0 -> -> -> Hl Hl' T.
+  pose proof (finalize_mono cf _ _ _ _ _ _ _ _ H) as MM.
+  unfold finalize in H. cbv iota in H.
   match type of H with (let '(_, _) := ?e in _) = _ => destruct e as [y s1] eqn:E0 end.
-  assert (M0 : A None s1 /\ r_fairy s1 = r_fairy s).
+  (* the middle part keeps the fairy_ref, or taints *)
+  assert (M0 : (r_fairy s1 = r_fairy s /\ f_rec s1 = f_rec s) \/ (taint s1 = true /\ exists e, y = Raise e)).
   { match type of E0 with match ?d with _ => _ end = _ => destruct d as [c|] end; [|inv E0; auto].
     match type of E0 with (let '(_, _) := ?e in _) = _ => destruct e as [y1 s2] eqn:E1 end.
     assert (M1 : RecLevel s s2).
     { destruct (fairy_reset cf c twr s) as [z s3] eqn:Er. apply fairy_reset_rl in Er.
-      destruct z; [|inv E1; auto]. dm E1; try (inv E1; auto; fail).
-      apply close_connection_rl in E1. eapply RecLevel_trans; eauto. }
-    destruct y1; [inv E0; split; [eapply A_rl; eauto|destruct M1; auto]|].
+      destruct z; inv E1; auto. }
+    destruct y1 as [|e]; [inv E0; left; destruct M1; unfold f_rec; rewrite rl_fr; auto|].
     match type of E0 with (let '(_, _) := ?e in _) = _ => destruct e as [z s3] eqn:E2 end.
-    assert (M2 : A None s3 /\ r_fairy s3 = r_fairy s).
-    { assert (A2 : A None s2) by (eapply A_rl; eauto).
-      assert (F2 : r_fairy s2 = r_fairy s) by (destruct M1; auto).
-      match type of E2 with context [if ?b then set_taint_gc ?u true else ?u] =>
-        set (sa := if b then set_taint_gc u true else u) in *;
-        assert (Ma : A None sa /\ r_fairy sa = r_fairy s)
-          by (subst sa; destruct b; (split; [a_leaf; exact A2|exact F2])) end.
-      destruct Ma as [Ma Mb].
-      destruct r; [|inv E2; auto]. apply rec_invalidate_rl in E2. split; [eapply A_rl; eauto|].
-      destruct E2. congruence. }
-    repeat dm E0; inv E0; auto. }
-  destruct M0 as [M0 F0].
-  destruct y; [|inv H; split; [auto|intros; congruence]].
-  match type of H with (let '(_, _) := ?e in _) = _ => destruct e as [w s2] eqn:E1 end.
-  assert (M1 : A None s2).
-  { repeat dm E1; try (inv E1; auto; fail). eapply rec_checkin_A; eauto. intros; discriminate. }
+    cbn [negb andb] in E2.
+    set (sa := if negb (is_exception e) then set_taint_reset s2 true else s2) in *.
+    pose proof (rec_invalidate_rl _ _ _ _ _ _ E2) as R3.
+    assert (Rf : r_fairy s3 = r_fairy s /\ f_rec s3 = f_rec s).
+    { destruct R3, M1. split; [rewrite rl_fairy; subst sa; destruct (negb (is_exception e)); exact rl_fairy0|].
+      unfold f_rec. rewrite rl_fr. subst sa. destruct (negb (is_exception e)); cbn; rewrite rl_fr0; reflexivity. }
+    destruct z as [|e2].
+    2:{ inv E0. right. split; [apply tc_taint; eapply rec_invalidate_raise; eauto|eauto]. }
+    destruct (is_exception e) eqn:Ee; [inv E0; auto|].
+    (* a BaseException out of the reset of an explicitly returned fairy: tainted *)
+    assert (T3 : taint s3 = true).
+    { destruct R3. unfold taint. rewrite rl_tg. subst sa. cbn. apply orb_true_r. }
+    right. destruct (r_fairy s3 r0).
+    - destruct (rec_checkin cf r0 true s3) as [w s4] eqn:Ec.
+      pose proof (Mono_taint_true _ _ (rec_checkin_mono cf _ _ _ _ _ Ec) T3).
+      unfold reraise_after in E0. destruct w; inv E0; eauto.
+    - inv E0. eauto. }
+  destruct M0 as [[F0 G0]|[T1 [e ->]]].
+  2:{ inv H. congruence. }
+  destruct y as [|e]; [|inv H; congruence].
+  rewrite F0, Hl in H.
+  destruct (rec_checkin cf r0 true s1) as [w s2] eqn:E1.
   destruct w as [|e].
-  - destruct fy as [f'|]; inv H.
-    + split; [a_leaf; auto|]. intros f r0 Hf Hr Hg Hl Hl' T. inv Hf.
-      change (f_rec (set_f_rec (set_f_dbc s2 (upd (f_dbc s2) f None)) (upd (f_rec s2) f None)) f)
-        with (upd (f_rec s2) f None f) in Hl'. rewrite upd_same in Hl'. discriminate.
-    + split; [auto|]. intros; discriminate.
-  - inv H. split; [auto|]. intros f r0 Hf Hr Hg Hl Hl' T. subst.
-    rewrite F0, Hl in E1. unfold rec_checkin in E1. rewrite F0, Hl in E1.
+  - inv H. change (upd (f_rec s2) f None f = Some r0) in Hl'. rewrite upd_same in Hl'. discriminate.
+  - inv H. unfold rec_checkin in E1. rewrite F0, Hl in E1.
     apply do_return_conn_raise in E1. congruence.
 Qed.
 
 Lemma fairy_checkin_A : forall f twr s x s', fairy_checkin cf f twr s = (x, s') -> A None s ->
   A None s' /\ (forall r0, f_rec s f = Some r0 -> r_fairy s r0 = Some f -> f_rec s' f = Some r0 ->
-                taint_close s' = false -> r_fairy s' r0 = Some f).
+                taint s' = false -> r_fairy s' r0 = Some f).
 Proof.
   unfold fairy_checkin; intros f twr s x s' H HA. destruct (finalize_A _ _ _ _ _ _ _ _ H HA) as [B1 B2].
   split; [exact B1|intros; eapply B2; eauto].
@@ -191,7 +207,7 @@ Qed.
 
 Lemma fairy_close_A : forall f s x s', fairy_close cf f s = (x, s') -> A None s ->
   A None s' /\ (forall r0, f_rec s f = Some r0 -> r_fairy s r0 = Some f -> f_rec s' f = Some r0 ->
-                taint_close s' = false -> r_fairy s' r0 = Some f).
+                taint s' = false -> r_fairy s' r0 = Some f).
 Proof.
   unfold fairy_close; intros f s x s' H HA. dm H.
   - eapply fairy_checkin_A in H; [exact H|]. a_leaf. auto.
@@ -200,7 +216,7 @@ Qed.
 
 Lemma fairy_invalidate_A : forall f soft s x s', fairy_invalidate cf f soft s = (x, s') -> A None s ->
   A None s' /\ (forall r0, f_rec s f = Some r0 -> r_fairy s r0 = Some f -> f_rec s' f = Some r0 ->
-                taint_close s' = false -> r_fairy s' r0 = Some f).
+                taint s' = false -> r_fairy s' r0 = Some f).
 Proof.
   unfold fairy_invalidate; intros f soft s x s' H HA. dm H; [|inv H; split; auto].
   match type of H with (let '(_, _) := ?e in _) = _ => destruct e as [y s1] eqn:E0 end.
@@ -217,7 +233,7 @@ Qed.
 
 Lemma fairy_detach_A : forall f s x s', fairy_detach cf f s = (x, s') -> A None s ->
   (forall r, f_rec s f = Some r -> r_fairy s r <> None) ->
-  A None s' /\ (forall r0, f_rec s' f = Some r0 -> taint_close s' = true).
+  A None s' /\ (forall r0, f_rec s' f = Some r0 -> taint s' = true).
 Proof.
   unfold fairy_detach; intros f s x s' H HA Hr. destruct (f_rec s f) as [r|] eqn:Er.
   2:{ inv H. split; auto. intros; congruence. }
@@ -236,7 +252,7 @@ Qed.
 
 Lemma pool_invalidate_A : forall f chk s x s', pool_invalidate cf f chk s = (x, s') -> A None s ->
   A None s' /\ (forall r0, f_rec s f = Some r0 -> r_fairy s r0 = Some f -> f_rec s' f = Some r0 ->
-                taint_close s' = false -> r_fairy s' r0 = Some f).
+                taint s' = false -> r_fairy s' r0 = Some f).
 Proof.
   unfold pool_invalidate; intros f chk s x s' H HA.
   match type of H with context [if ?b then (let (_, _) := now cf s in _) else s] =>
@@ -345,9 +361,9 @@ Definition RecOrig (s : st) : Prop :=
 Definition RBd (s : st) : Prop :=
   forall g r, f_dead s g = false -> f_rec s g = Some r -> r_fairy s r = Some g.
 Definition QB (s : st) : Prop :=
-  Bnd s /\ A None s /\ (taint_close s = false -> RecOrig s /\ RBd s).
+  Bnd s /\ A None s /\ (taint s = false -> RecOrig s /\ RBd s).
 
-Lemma pool_connect_Q : forall s x s', pool_connect cf s = (x, s') -> A None s -> taint_close s' = false ->
+Lemma pool_connect_Q : forall s x s', pool_connect cf s = (x, s') -> A None s -> taint s' = false ->
   A None s' /\ exists r0, r_fairy s r0 = None /\
      (forall r', r' <> r0 -> r_fairy s' r' = r_fairy s r') /\
      (forall g, g <> nfairies s -> f_rec s' g = f_rec s g) /\
@@ -362,13 +378,13 @@ Proof.
   destruct (record_checkout cf s) as [[f|e] s1] eqn:Er.
   2:{ inv H. destruct (record_checkout_Q _ _ _ Er HA T) as (B1 & B2 & B3).
       split; auto.
-      assert (T0 : taint_close s = false) by (eapply Mono_tc_false; [eapply record_checkout_mono; eauto|auto]).
+      assert (T0 : taint s = false) by (eapply Mono_tc_false; [eapply record_checkout_mono; eauto|auto]).
       destruct (A_untainted _ _ HA T0) as (_ & (_ & _ & _ & _ & Q5) & _).
       exists (nrecs s). split; [apply Q5; lia|]. split; [intros; apply B2|].
       split; [intros; unfold f_rec; rewrite B3; auto|]. split; [left; unfold f_rec; rewrite B3; auto|exact I]. }
   cbn beta iota in H.
   set (s2 := set_f_counter s1 (upd (f_counter s1) f (f_counter s1 f + 1))) in *.
-  assert (T1 : taint_close s1 = false).
+  assert (T1 : taint s1 = false).
   { destruct (f_rec s1 f), (f_dbc s1 f); try (inv H; exact T).
     dm H; [inv H; exact T|]. apply (Mono_tc_false s2 s'); [eapply checkout_loop_mono; exact H|exact T]. }
   destruct (record_checkout_Q _ _ _ Er HA T1) as (B1 & r0 & C1 & C2 & C3 & C4 & C5 & C6 & C7).
@@ -435,7 +451,7 @@ Qed.
 Lemma gc_fairy_parts : forall f s,
   nfairies (gc_fairy cf f s) = nfairies s /\ f_orig (gc_fairy cf f s) = f_orig s /\
   (forall g, g <> f -> f_dead (gc_fairy cf f s) g = f_dead s g) /\ f_dead (gc_fairy cf f s) f = true /\
-  (taint_close (gc_fairy cf f s) = false -> taint_close s = false).
+  (taint (gc_fairy cf f s) = false -> taint s = false).
 Proof.
   intros f s. unfold gc_fairy. destruct (f_dead s f) eqn:Ed; [auto|].
   set (s0 := set_f_dead s (upd (f_dead s) f true)).
@@ -448,8 +464,8 @@ Proof.
   intros T. exact (Mono_tc_false _ _ M T).
 Qed.
 
-Lemma gc_fairy_RB : forall f s, A None s -> (taint_close s = false -> RecOrig s /\ RBd s) ->
-  A None (gc_fairy cf f s) /\ (taint_close (gc_fairy cf f s) = false -> RecOrig (gc_fairy cf f s) /\ RBd (gc_fairy cf f s)).
+Lemma gc_fairy_RB : forall f s, A None s -> (taint s = false -> RecOrig s /\ RBd s) ->
+  A None (gc_fairy cf f s) /\ (taint (gc_fairy cf f s) = false -> RecOrig (gc_fairy cf f s) /\ RBd (gc_fairy cf f s)).
 Proof.
   intros f s HA HR. destruct (gc_fairy_Q f s HA) as (G1 & G2 & G3).
   destruct (gc_fairy_parts f s) as (P1 & P2 & P3 & P4 & P5).
@@ -475,14 +491,14 @@ Lemma QB_on_fairy : forall f s s',
   QB s -> held f s = true ->
   Mono s s' -> SameNF s s' ->
   (forall r0, (forall r, f_rec s f = Some r -> r = r0) -> OpOn f r0 s s') ->
-  (A None s -> (forall r, f_rec s f = Some r -> taint_close s = false -> r_fairy s r <> None) ->
+  (A None s -> (forall r, f_rec s f = Some r -> taint s = false -> r_fairy s r <> None) ->
    A None s' /\ (forall r0, f_rec s f = Some r0 -> r_fairy s r0 = Some f -> f_rec s' f = Some r0 ->
-                 taint_close s' = false -> r_fairy s' r0 = Some f)) ->
+                 taint s' = false -> r_fairy s' r0 = Some f)) ->
   QB s'.
 Proof.
   intros f s s' (B & HA & RR) Hh M (N1 & N2 & N3) HO HAk.
   pose proof B as (_ & HAl & _). destruct (HAl f Hh) as [Hf Hd].
-  assert (RBf : forall r, f_rec s f = Some r -> taint_close s = false -> r_fairy s r = Some f)
+  assert (RBf : forall r, f_rec s f = Some r -> taint s = false -> r_fairy s r = Some f)
     by (intros r Hr T; apply (proj2 (RR T)); auto).
   destruct (HAk HA) as [A' Lk]. { intros r Hr T. rewrite (RBf r Hr T). discriminate. }
   split; [eapply Bnd_same; eauto; repeat split; auto|]. split; [exact A'|].
@@ -511,7 +527,7 @@ Qed.
 
 (* after pool.connect(): the links of the old fairies are intact *)
 Lemma connect_RB : forall s x s1, pool_connect cf s = (x, s1) -> A None s ->
-  (taint_close s = false -> RecOrig s /\ RBd s) -> taint_close s1 = false ->
+  (taint s = false -> RecOrig s /\ RBd s) -> taint s1 = false ->
   A None s1 /\ RecOrig s1 /\
   (forall g r, g <> nfairies s -> f_dead s1 g = false -> f_rec s1 g = Some r -> r_fairy s1 r = Some g) /\
   (forall f, x = Ok f -> f = nfairies s /\ exists r0, f_rec s1 f = Some r0 /\ r_fairy s1 r0 = Some f).
@@ -547,9 +563,9 @@ Proof.
   assert (OH : forall h (k : nat -> st -> res unit * st),
      (forall f y s1, k f s0 = (y, s1) -> Mono s0 s1 /\ SameNF s0 s1 /\
         (forall r0, (forall r, f_rec s0 f = Some r -> r = r0) -> OpOn f r0 s0 s1) /\
-        (A None s0 -> (forall r, f_rec s0 f = Some r -> taint_close s0 = false -> r_fairy s0 r <> None) ->
+        (A None s0 -> (forall r, f_rec s0 f = Some r -> taint s0 = false -> r_fairy s0 r <> None) ->
           A None s1 /\ (forall r0, f_rec s0 f = Some r0 -> r_fairy s0 r0 = Some f -> f_rec s1 f = Some r0 ->
-                 taint_close s1 = false -> r_fairy s1 r0 = Some f))) ->
+                 taint s1 = false -> r_fairy s1 r0 = Some f))) ->
      on_holder h s0 (fun f => k f s0) = (x, s') -> QB s').
   { intros h k Hk Ho. unfold on_holder in Ho.
     destruct (nth_error (holders s0) h) as [[f|]|] eqn:En; try (inv Ho; exact B0).
@@ -561,9 +577,9 @@ Proof.
     destruct (pool_connect cf s0) as [[f|e] s1] eqn:E; inv H; destruct B0 as (B0 & HA & RR).
     + (* success *)
       split; [exact B'|]. split.
-      { destruct (taint_close s1) eqn:T; [left; exact T|].
+      { destruct (taint s1) eqn:T; [left; exact T|].
         destruct (connect_RB _ _ _ E HA RR T) as (A1 & _). a_leaf; auto. }
-      intros T. change (taint_close s1 = false) in T.
+      intros T. change (taint s1 = false) in T.
       destruct (connect_RB _ _ _ E HA RR T) as (A1 & RO1 & RB1 & RF).
       destruct (RF f eq_refl) as (-> & r0 & F1 & F2).
       split; [exact RO1|]. intros g r Hd Hr. change (f_dead s1 g = false) in Hd. change (f_rec s1 g = Some r) in Hr.
@@ -571,9 +587,9 @@ Proof.
       rewrite F1 in Hr. inv Hr. exact F2.
     + (* failure *)
       split; [exact B'|].
-      assert (X : A None s1 /\ (taint_close s1 = false -> RecOrig s1 /\
+      assert (X : A None s1 /\ (taint s1 = false -> RecOrig s1 /\
                  (forall g r, g <> nfairies s0 -> f_dead s1 g = false -> f_rec s1 g = Some r -> r_fairy s1 r = Some g))).
-      { destruct (taint_close s1) eqn:T; [split; [left; exact T|discriminate]|].
+      { destruct (taint s1) eqn:T; [split; [left; exact T|discriminate]|].
         destruct (connect_RB _ _ _ E HA RR T) as (A1 & RO1 & RB1 & _). auto. }
       destruct X as [A1 X].
       destruct (Nat.eqb_spec (nfairies s1) (S (nfairies s0))) as [En|En].
@@ -598,8 +614,8 @@ Proof.
   - eapply OH; eauto. intros f y s1 Hk. pose proof (fairy_detach_mono _ _ _ _ _ Hk) as M.
     split; [exact M|]. split; [eapply fairy_detach_nf; eauto|].
     split; [intros; eapply fairy_detach_oo; eauto|]. intros HA Hr.
-    destruct (taint_close s0) eqn:T0.
-    + destruct M. split; [left; auto|]. intros r0 _ _ _ T. rewrite m_tc in T; auto; discriminate.
+    destruct (taint s0) eqn:T0.
+    + pose proof (Mono_taint_true _ _ M T0) as T1. split; [left; exact T1|]. intros r0 _ _ _ T. congruence.
     + destruct (fairy_detach_A _ _ _ _ Hk HA ltac:(intros r Hr1; apply Hr; auto)) as [D1 D2].
       split; [exact D1|]. intros r0 _ _ H3 T. rewrite (D2 _ H3) in T. discriminate.
   - (* del *)
@@ -607,7 +623,7 @@ Proof.
     inv H. destruct B0 as (B0 & HA & RR). split; [exact B'|].
     set (s1 := set_holders s0 (set_nth (holders s0) h None)) in *.
     assert (A1 : A None s1) by (subst s1; a_leaf; auto).
-    assert (RR1 : taint_close s1 = false -> RecOrig s1 /\ RBd s1) by exact RR.
+    assert (RR1 : taint s1 = false -> RecOrig s1 /\ RBd s1) by exact RR.
     destruct (held f s1); [split; auto|]. apply gc_fairy_RB; auto.
   - inv H. exact B0.
   - eapply (OH h (fun f => pool_invalidate cf f true)); eauto. intros f y s1 Hk.
@@ -622,11 +638,11 @@ Proof.
 Qed.
 
 (* overflow_consistent: after any history and any fault script, unless a BaseException has escaped a
-   DBAPI close(): checkedout() is exactly the number of records in use, idle records never exceed
+   DBAPI close() or the reset of an explicitly returned fairy: checkedout() is exactly the number of records in use, idle records never exceed
    pool_size, the overflow counter stays within [-pool_size, max_overflow] *)
 Theorem overflow_consistent : forall fl ops,
   let s := run cf ops (init cf fl) in
-  taint_close s = false ->
+  taint s = false ->
   checkedout cf s = Z.of_nat (inuse_count s) /\
   (0 < psize cf -> checkedin s <= psize cf) /\
   - psize cf <= overflow s /\ (0 <= maxov cf -> overflow s <= maxov cf).
@@ -644,8 +660,8 @@ Theorem no_leak_checkedout : forall fl ops,
 Proof.
   intros fl ops s T R.
   assert (Tc : taint_close s = false) by (unfold taint in T; apply orb_false_iff in T; tauto).
-  destruct (overflow_consistent fl ops Tc) as [H _]. fold s in H. rewrite H.
-  pose proof (no_leak cf fl ops T R) as H0. fold s in H0. rewrite H0. reflexivity.
+  destruct (overflow_consistent fl ops T) as [H _]. fold s in H. rewrite H.
+  pose proof (no_leak cf fl ops Tc R) as H0. fold s in H0. rewrite H0. reflexivity.
 Qed.
 
 End Acc2.
